@@ -45,5 +45,10 @@ def fix(module: nn.LSTM, **kwargs) -> DPLSTM:
         dropout=module.dropout,
         bidirectional=module.bidirectional,
     )
+    # same dtype before the values are copied: no rounding through the default dtype
+    dplstm.to(next(module.parameters()).dtype)
     dplstm.load_state_dict(module.state_dict())
+    # frozen parameters stay frozen
+    for name, param in module.named_parameters():
+        getattr(dplstm, name).requires_grad_(param.requires_grad)
     return dplstm
